@@ -628,7 +628,7 @@ impl VisitMut for Rw {
                     self.log.push("R16 constructor eta-expanded".into());
                     None
                 } else if let Some((_, to)) = self.method_maps.iter().find(|(f, _)| *f == format!("call:{name}")) {
-                    let callee: Path = parse_str(to.trim_start_matches("&*").trim_start_matches("&mut ")).unwrap();
+                    let callee: Path = parse_str(to.trim_start_matches("&*").trim_start_matches("&mut ").trim_start_matches('&')).unwrap();
                     let recv = (*m.receiver).clone();
                     let args = m.args.clone();
                     self.log.push(format!("R8 method call .{name}() -> {to}()"));
@@ -639,6 +639,9 @@ impl VisitMut for Rw {
                     } else if to.starts_with("&mut ") {
                         // the method's auto-ref of its receiver made explicit
                         Some(parse_quote!(#callee(&mut #recv, #args)))
+                    } else if to.starts_with('&') && !to.starts_with("&*") {
+                        // the method's auto-ref of its receiver made explicit
+                        Some(parse_quote!(#callee(&#recv, #args)))
                     } else if to.starts_with("&*") {
                         // the method's auto-deref of its receiver (String -> str) made explicit
                         Some(parse_quote!(#callee(&*#recv, #args)))
@@ -843,6 +846,20 @@ impl Rw {
                     let l = cur.clone();
                     pieces.push(parse_quote!(vx_lit(#l)));
                     cur.clear();
+                }
+                if let Some(name) = inner.strip_suffix(":?") {
+                    // `{x:?}` / `{:?}`: Debug rendering, an opaque string
+                    let arg: Expr = if name.is_empty() {
+                        let a = rest.get(argi)?.clone();
+                        argi += 1;
+                        a
+                    } else {
+                        let id = Ident::new(name, Span::call_site());
+                        parse_quote!(#id)
+                    };
+                    pieces.push(parse_quote!(vx_dbg(&#arg)));
+                    i = j + 1;
+                    continue;
                 }
                 let arg: Expr = if inner.is_empty() {
                     let a = rest.get(argi)?.clone();
